@@ -1,5 +1,8 @@
 import Proofs.AdjointNN
 import Proofs.Subgradient
+import Proofs.VJPBce
+import Proofs.VJPSoftmax
+import Proofs.VJPBatchNorm
 import Props.C13
 import Props.C16
 /-!
@@ -7,9 +10,9 @@ import Props.C16
 
 Same notions as C01 (`IsAdjoint`, `PointwiseVJP`, subgradient form at kinks and ties).
 Linear / bilinear ops over any commutative ring (field for the averaging ops), pointwise
-activations over ℝ with `HasDerivAt`.  Row-coupled nonlinear ops (softmax, log_softmax,
-cross-entropy, BCE, BCE-with-logits, batch-norm in training mode) are modelled and corresponded
-only — see `unproved_ops` in the evidence.
+activations over ℝ with `HasDerivAt`.  Nonlinear ops that couple entries use `Proofs.NL.IsVJPAt`
+(the derivative of `t ↦ ⟪F(a + t·v), g⟫` at 0 is `⟪v, B g⟫` for every direction `v` and upstream `g`).
+Ops whose theorem has not landed yet are listed as `unproved_ops` in the evidence.
 -/
 namespace Props.C02
 open Synap Synap.NDArray Synap.Np Synap.Kernels Proofs.Adjoint Proofs.Core Proofs.Calc Proofs.Subgrad
@@ -116,5 +119,109 @@ theorem dropout_vjp {K : Type} [Field K] [LinearOrder K] [IsStrictOrderedRing K]
     (List.zipWith (· * ·) (Synap.Layers.dropout p true vs us) gs).sum
       = (List.zipWith (· * ·) vs (Synap.Layers.dropoutBackward p gs us)).sum :=
   Props.C13.dropout_backward_same_mask p vs gs us h1 h2
+
+/-! ### softmax family along any axis, cross-entropy: full (dense-Jacobian) VJP -/
+open Proofs.NL in
+theorem softmax_vjp (a s : NDArray ℝ) (axis : Int) (ha : a.WF) (h : softmaxForward a axis = some s) :
+    IsVJPAt (fun x => softmaxForward x axis) a a.shape (fun g => softmaxBackward g s axis) :=
+  Proofs.NL.softmax_vjp a s axis ha h
+
+open Proofs.NL in
+theorem log_softmax_vjp (a ls : NDArray ℝ) (axis : Int) (ha : a.WF) (h : logSoftmaxForward a axis = some ls) :
+    IsVJPAt (fun x => logSoftmaxForward x axis) a a.shape (fun g => logSoftmaxBackward g ls axis) :=
+  Proofs.NL.log_softmax_vjp a ls axis ha h
+
+open Proofs.NL in
+theorem cross_entropy_vjp (x y : NDArray ℝ) (labels : List Nat) (hx : x.WF) (h : crossEntropyForward x labels = some y) :
+    IsVJPAt (fun z => crossEntropyForward z labels) x y.shape (fun g => crossEntropyBackward g x labels) :=
+  Proofs.NL.cross_entropy_vjp x y labels hx h
+
+/-- non-vacuity: the hypotheses of `softmax_vjp` are met by a concrete 2×2 input -/
+example : ∃ s, softmaxForward (⟨[2, 2], [1, 2, 3, 4]⟩ : NDArray ℝ) 1 = some s := by
+  simp [softmaxForward, normAxis]
+
+/-! ### binary cross-entropies (pointwise in the prediction / logit for a fixed target) -/
+open Proofs.NL in
+/-- BCE: off the forward clamp level and where both logarithms have non-zero arguments, the factor the backward
+    kernel uses is the derivative of the scalar the forward kernel evaluates (ε-guards included, as implemented) -/
+theorem bce_scalar_deriv (pv tv : ℝ) (h1 : pv + (epsilon : ℝ) ≠ 0) (h2 : 1 - pv + (epsilon : ℝ) ≠ 0)
+    (hc : -(tv * Real.log (pv + (epsilon : ℝ)) + (1 - tv) * Real.log (1 - pv + (epsilon : ℝ))) ≠ -(Real.log (epsilon : ℝ))) :
+    HasDerivAt (fun x => bceScalar x tv) (bceFactor pv tv) pv :=
+  Proofs.NL.bce_scalar_deriv pv tv h1 h2 hc
+
+open Proofs.NL in
+theorem bce_vjp (p t g : NDArray ℝ) (hp : p.WF) (ht : t.WF) (hg : g.WF) (hs : t.shape = p.shape) (hgs : g.shape = p.shape) :
+    ∃ y b, bceForward p t = some y ∧ bceBackward g p t = some b ∧ y.shape = p.shape ∧ b.shape = p.shape ∧
+      ∀ i, validIdx p.shape i →
+        y.get i = bceScalar (p.get i) (t.get i) ∧ b.get i = bceFactor (p.get i) (t.get i) * g.get i :=
+  Proofs.NL.bce_vjp p t g hp ht hg hs hgs
+
+open Proofs.NL in
+/-- BCE with logits: the stabilised forward is smooth with derivative `(1 − y) − 1/(1 + eˣ)` everywhere … -/
+theorem bce_logits_scalar_deriv (xv yv : ℝ) :
+    HasDerivAt (fun x => bceLogitsScalar x yv) ((1 - yv) - 1 / (1 + Real.exp xv)) xv :=
+  Proofs.NL.bce_logits_scalar_deriv xv yv
+
+open Proofs.NL in
+/-- … and the factor of the backward kernel, which keeps an `ε` in one denominator, is within `ε = 1e-12` of it
+    (a bounded deviation of the implementation, stated rather than hidden) -/
+theorem bce_logits_factor_within_eps (xv yv : ℝ) :
+    |bceLogitsFactor xv yv - ((1 - yv) - 1 / (1 + Real.exp xv))| ≤ (epsilon : ℝ) :=
+  Proofs.NL.bce_logits_factor_close xv yv
+
+open Proofs.NL in
+theorem bce_logits_vjp (x y g : NDArray ℝ) (hx : x.WF) (hy : y.WF) (hg : g.WF) (hs : y.shape = x.shape) (hgs : g.shape = x.shape) :
+    ∃ l b, bceLogitsForward x y = some l ∧ bceLogitsBackward g x y = some b ∧ l.shape = x.shape ∧ b.shape = x.shape ∧
+      ∀ i, validIdx x.shape i →
+        l.get i = bceLogitsScalar (x.get i) (y.get i) ∧ b.get i = g.get i * bceLogitsFactor (x.get i) (y.get i) :=
+  Proofs.NL.bce_logits_vjp x y g hx hy hg hs hgs
+
+/-! ### batch normalisation: input gradient in eval mode (constant statistics) and in training mode (statistics are the
+    batch mean and biased variance of the input itself: the three-term formula), scale and shift gradients -/
+open Proofs.NL in
+theorem batch_norm_eval_vjp (x : NDArray ℝ) (gamma beta : Option (NDArray ℝ)) (mean var : Nat → ℝ) (eps : ℝ) (hx : x.WF) :
+    IsVJPAt (fun z => some (bnForward z gamma beta mean var eps)) x x.shape
+      (fun g => some (bnBackward g x gamma beta.isSome false mean var eps).1) :=
+  Proofs.NL.bn_eval_vjp_x x gamma beta mean var eps hx
+
+open Proofs.NL in
+theorem batch_norm_train_vjp (x : NDArray ℝ) (gamma beta : Option (NDArray ℝ)) (eps : ℝ) (heps : 0 < eps) (hx : x.WF)
+    (hrank : 2 ≤ x.shape.length) :
+    IsVJPAt (fun z => some (bnForward z gamma beta (batchMean z) (batchVar z) eps)) x x.shape
+      (fun g => some (bnBackward g x gamma beta.isSome true (batchMean x) (batchVar x) eps).1) :=
+  Proofs.NL.bn_train_vjp_x x gamma beta eps heps hx hrank
+
+open Proofs.NL in
+theorem batch_norm_gamma_vjp (x gm : NDArray ℝ) (beta : Option (NDArray ℝ)) (useBatch : Bool) (mean var : Nat → ℝ) (eps : ℝ) (hx : x.WF)
+    (hrank : 2 ≤ x.shape.length) (hgm : gm.WF) (hgs : gm.shape = [x.shape.getD 1 0]) :
+    IsVJPAt (fun gm' => some (bnForward x (some gm') beta mean var eps)) gm x.shape
+      (fun g => (bnBackward g x (some gm) beta.isSome useBatch mean var eps).2.1) :=
+  Proofs.NL.bn_vjp_gamma x gm beta useBatch mean var eps hx hrank hgm hgs
+
+open Proofs.NL in
+theorem batch_norm_beta_vjp (x bt : NDArray ℝ) (gamma : Option (NDArray ℝ)) (useBatch : Bool) (mean var : Nat → ℝ) (eps : ℝ) (hx : x.WF)
+    (hrank : 2 ≤ x.shape.length) (hbt : bt.WF) (hbs : bt.shape = [x.shape.getD 1 0]) :
+    IsVJPAt (fun bt' => some (bnForward x gamma (some bt') mean var eps)) bt x.shape
+      (fun g => (bnBackward g x gamma true useBatch mean var eps).2.2) :=
+  Proofs.NL.bn_vjp_beta x bt gamma useBatch mean var eps hx hrank hbt hbs
+
+/-! ### max-pool 2d: subgradient selection, as in 1d -/
+theorem maxpool2d_vjp_subgradient {K : Type} [Field K] [LinearOrder K] [IsStrictOrderedRing K]
+    (x g b : NDArray K) (k s p d : Nat × Nat) (n c h w lh lw : Nat) (hx : x.shape = [n, c, h, w])
+    (hlh : convOut h k.1 s.1 p.1 d.1 = some lh) (hlw : convOut w k.2 s.2 p.2 d.2 = some lw)
+    (hb : maxPool2dBackward g x k s p d = some b) :
+    b.shape = [n, c, h, w] ∧ ∀ bn cc qh qw, bn < n → cc < c → qh < h → qw < w →
+      b.get [bn, cc, qh, qw] = ((List.range lh).flatMap (fun th => (List.range lw).map (fun tw =>
+        let pos := win2 h w k s p d th tw
+        match firstMax (pos.map (fun o => o.map (fun (q : Nat × Nat) => x.get [bn, cc, q.1, q.2]))) with
+        | some (_, a) => if pos.getD a none = some (qh, qw) then g.get [bn, cc, th, tw] else 0
+        | none => 0))).sum :=
+  Proofs.NL.maxpool2d_backward_masked x g b k s p d n c h w lh lw hx hlh hlw hb
+
+/-- the position `firstMax` selects is a real (never a padding) entry that dominates the window -/
+theorem maxpool_selection_is_argmax {K : Type} [Field K] [LinearOrder K] [IsStrictOrderedRing K]
+    (vals : List (Option K)) (hreal : ∃ (k : Nat) (v : K), vals[k]? = some (some v)) :
+    ∃ v k, firstMax vals = some (v, k) ∧ vals[k]? = some (some v) ∧ ∀ (j : Nat) (w : K), vals[j]? = some (some w) → w ≤ v :=
+  firstMax_spec vals hreal
 
 end Props.C02
